@@ -295,6 +295,32 @@ def run(ctx):
                 if got[0] != base[0] or (got[0] == 'ok' and got[1] != base[1]):
                     ctx.violation('parse_files result depends on how the file ends (trailing new-line / comment)',
                                   {'file_content': variant_text[-400:], 'ending_variant': k, 'parse_string': repr(base)[:200], 'parse_files': repr(got)[:200]})
+        # several files: a file that holds only white-space and / or comments has no lexical items at all — adding it anywhere in
+        # the list, or changing what is inside its comments, must change nothing
+        fillers = ['', ' \n\t\n', '-- notes only\n', '/* block\n   comment */', '  -- a -- -- b\n/* c /* nested */ */\n', '--', '/**/ -- x']
+        for j, (f, text) in enumerate(cands[:ctx.n(12, 80)]):
+            base = parse_outcome(text)
+            main = os.path.join(tmp, 'm%d.asn' % j)
+            with open(main, 'w', encoding='utf-8') as fh:
+                fh.write(text)
+            for k, filler in enumerate(fillers):
+                note = os.path.join(tmp, 'n%d_%d.asn' % (j, k))
+                with open(note, 'w', encoding='utf-8') as fh:
+                    fh.write(filler)
+                for order in ([main, note], [note, main], [note, main, note]):
+                    try:
+                        with core.time_limit(120):
+                            got = ('ok', asn1tools.parse_files(order))
+                    except asn1tools.ParseError as e:
+                        got = ('ParseError', str(e)[:80])
+                    except Exception as e:
+                        got = ('Foreign:' + type(e).__name__, str(e)[:80])
+                    ctx.case(('parse_files-filler', text, filler, len(order), order[0] == note))
+                    ctx.count('parse_files.filler.' + got[0])
+                    if got[0] != base[0] or (got[0] == 'ok' and got[1] != base[1]):
+                        ctx.violation('parse_files: adding a file that contains only white-space / comments changes the result',
+                                      {'main_file': text[-300:], 'extra_file_content': filler, 'order': [os.path.basename(x) for x in order],
+                                       'parse_string_of_main': repr(base)[:200], 'parse_files': repr(got)[:200]})
     finally:
         shutil.rmtree(tmp, ignore_errors=True)
     # witnesses of the known finding are replayed on the real code every run
